@@ -1017,7 +1017,11 @@ class Engine:
         return t2
 
     def stmt_If(self, s, st):
-        c = self.truthy(self.eval(s.test, st))
+        self._truth_state = st
+        try:
+            c = self.truthy(self.eval(s.test, st))
+        finally:
+            self._truth_state = None
         if st.dead:
             return
         c = z3.simplify(c)
@@ -2269,6 +2273,8 @@ class Engine:
             return v.term != 0
         if k == KNone:
             return z3.BoolVal(False)
+        if isinstance(k, KRef) and k.cls == 'Tensor' and getattr(self, '_truth_state', None) is not None:
+            return self.T.tensor_truth(self, self._truth_state, v)
         if isinstance(k, KRef):
             return v.term != 0
         if isinstance(k, KList):
